@@ -1,4 +1,5 @@
 """C03 — incremental parsing is independent of how the input is split into calls."""
+import os
 import random
 import re
 
@@ -115,8 +116,12 @@ def run(tier, seed):
     bdir = build.build("asan")
     chk = core.Check(PID, tier, seed)
     ninputs = 9600 if tier == "quick" else 320000
+    rd = core.record_dir(PID) if tier == "thorough" else None
     sh = core.parallel(shard_fn, seed=seed, tier=tier, exe=bdir + "/splitdrv", ninputs=ninputs)
     chk.absorb(sh)
+    if rd:
+        os.environ.pop("VF_RECORD_DIR", None)
+        core.memcheck_recorded(chk, build.build("plain"), rd)
     if tier == "thorough":
         fdir = build.build("fuzz")
         chk.absorb(core.run_fuzz(fdir + "/fuzz_split", PID, runs=100000, seed=seed, jobs=16, max_len=96, dict_path="/repo/fuzz/tokener_parse_ex_fuzzer.dict"))
